@@ -49,6 +49,11 @@ def run(tier):
     _c_seed_formula(chk)
     _d_direction(chk)
     _e_forwarding(chk)
+    # a cached manifold is the one computed with the requested guards; every integration method gets the direction-wrapped system
+    from . import c20, c10
+    from .common import Relabel
+    c20._b_key_params(Relabel(chk, {"C20.b": "C12.e-cache"}), [x for x in c20._sites() if x.mod.name.endswith("services.manifold")])
+    c10._a_propagate(Relabel(chk, {"C10.a": "C12.d-propagate", "C10.b": "C12.d-propagate", "C10.d": "C12.d-propagate"}))
     return chk
 
 
